@@ -2,7 +2,8 @@
 From Coq Require Import List NArith ZArith Bool Arith.
 From Coq Require Import Strings.Byte Strings.String.
 Require Import CU.model.Prim CU.model.Types CU.model.Unicode CU.model.Card.
-Require Import CU.spec.LuhnSpec.
+Require Import CU.model.Block CU.model.Vbs CU.gen.GenConfig.
+Require Import CU.spec.LuhnSpec CU.spec.FramingSpec.
 Require Import CU.extract.Text.
 Import ListNotations.
 
@@ -23,12 +24,55 @@ Definition run_card (op : text) (args : list text) : option text :=
     match args with [s; c] => Some (opt (p_str s) (fun s => opt (p_str c) (fun c => T "OK " ++ pr_str (mask s c)))) | _ => Some bad_input end
   else None.
 
+(* ---------- framing ---------- *)
+Definition BSZ : nat := 1012.
+Definition blk_run (ws : list bytes) : bytes :=
+  fdata (bfile (bfinalise BSZ (fold_left (bwrite BSZ) ws (binit BSZ fempty)))).
+Definition p_wop (t : text) : option wop :=
+  match t with
+  | c :: r => if Byte.eqb c "W"%byte then option_map WWrite (p_bytes_e r)
+              else if text_eqb t (T "C") then Some WClose
+              else if text_eqb t (T "X") then Some WExit else None
+  | [] => None
+  end.
+Definition pr_rend (x : list bytes * rend) : text :=
+  pr_list pr_bytes_e (fst x) ++ T "|" ++
+  match snd x with End => T "END" | ErrData n ctx => T "ERR:" ++ pr_nat n ++ T ":" ++ pr_bytes ctx end.
+
+Definition run_framing (op : text) (args : list text) : option text :=
+  if text_eqb op (T "blk") then
+    match args with [ws] => Some (opt (p_list p_bytes_e ws) (fun ws => T "OK " ++ pr_bytes (blk_run ws))) | _ => Some bad_input end
+  else if text_eqb op (T "blk1") then
+    match args with [d] => Some (opt (p_bytes d) (fun d => T "OK " ++ pr_bytes (block_oneshot BSZ d))) | _ => Some bad_input end
+  else if text_eqb op (T "blk1_spec") then
+    match args with [d] => Some (opt (p_bytes d) (fun d => T "OK " ++ pr_bytes (blocked_oneshot BSZ d))) | _ => Some bad_input end
+  else if text_eqb op (T "payload_spec") then
+    match args with [d] => Some (opt (p_bytes d) (fun d => T "OK " ++ pr_bytes (payload BSZ d))) | _ => Some bad_input end
+  else if text_eqb op (T "unblk_reads") then
+    match args with [f; ns] => Some (opt (p_bytes f) (fun f => opt (p_list p_nat ns) (fun ns =>
+        pr_result (pr_list pr_bytes_e) (ureads BSZ (uinit (fopen f)) ns)))) | _ => Some bad_input end
+  else if text_eqb op (T "unblk1") then
+    match args with [f] => Some (opt (p_bytes f) (fun f => pr_result pr_bytes (unblock_oneshot BSZ f))) | _ => Some bad_input end
+  else if text_eqb op (T "vbs_write") then
+    match args with [b; ops] => Some (opt (p_bool b) (fun b => opt (p_list p_wop ops) (fun ops =>
+        T "OK " ++ pr_bytes (file_of (writer_run BSZ b ops))))) | _ => Some bad_input end
+  else if text_eqb op (T "vbs_l2b") then
+    match args with [b; rs] => Some (opt (p_bool b) (fun b => opt (p_list p_bytes_e rs) (fun rs =>
+        T "OK " ++ pr_bytes (vbs_list_to_bytes BSZ b rs)))) | _ => Some bad_input end
+  else if text_eqb op (T "vbs_read") then
+    match args with [b; f] => Some (opt (p_bool b) (fun b => opt (p_bytes f) (fun f =>
+        pr_result pr_rend (read_all BSZ max_vbs_record_length f b)))) | _ => Some bad_input end
+  else None.
+
 Definition run_line (line : text) : text :=
   match split " "%byte line with
   | op :: args =>
     match run_card op args with
     | Some r => r
+    | None =>
+    match run_framing op args with
+    | Some r => r
     | None => T "BADOP"
-    end
+    end end
   | [] => T "BADOP"
   end.
